@@ -40,7 +40,8 @@ from common import Model, exc_name, REPO
 logging.disable(logging.CRITICAL)
 
 LEAN_TARGETS = ["NfcVerif.Props.C09", "drv_c09"]
-PARTS = ["multi", "races"]  # props/c09_multi.py: several threads on one socket, service / application threads against the real
+PARTS = ["multi", "races", "deact"]  # props/c09_deact.py: the real nfc.dep deactivation under a virtual clock (Model.Deact);
+# props/c09_multi.py: several threads on one socket, service / application threads against the real
 #                             run loop under a deterministic scheduler; props/c09_races.py: terminate() at every unlocked line
 
 THEOREMS = [
@@ -60,6 +61,12 @@ THEOREMS = [
     "NfcVerif.C09.notify_one_counterexample",
     "NfcVerif.C09.schedule_after_terminate",
     "NfcVerif.C09.service_threads_exit_any_point",
+    "NfcVerif.C09.target_deactivate_time",
+    "NfcVerif.C09.target_deactivate_bounded",
+    "NfcVerif.C09.target_deactivate_bounded_partial",
+    "NfcVerif.C09.target_deactivate_unbounded_counterexample",
+    "NfcVerif.C09.renewed_deadline_counterexample",
+    "NfcVerif.C09.initiator_deactivate_bounded",
 ]
 
 HANG_TIMEOUT = 6.0        # hard limit for one thread to come back (a healthy one needs < 1 ms)
